@@ -106,6 +106,17 @@ Theorem callee_saved_classification_eq_sysv : forall r, 0 <= r <= 15 ->
 Proof. exact classification. Qed.
 Print Assumptions callee_saved_classification_eq_sysv.
 
+(* KNOWN FINDING c06:sret-rax (recorded, not repaired): the psABI also requires a function that
+   returns an aggregate in memory to hand the block address back in rax.  MIR's result lowering
+   (MIR_RET case, interpreter shim) loads rax only for an integer-class result, so a function whose
+   first parameter is rblk and which has no integer result leaves rax undefined.
+   callee_result_regs_eq_sysv above is the proved remainder (declared results). *)
+Theorem sret_pointer_in_rax_refuted :
+  exists args rs, wf_args args = true /\ sret_required args rs = true
+  /\ exists l, ret_results rs = Some l /\ shim_results rs = Some l /\ ~ In RAX l.
+Proof. exists [ARblk 24; AInt I64], [RD]. repeat split. exists [XMM0]. repeat split. intros [H|[]]; discriminate. Qed.
+Print Assumptions sret_pointer_in_rax_refuted.
+
 (* The pinned commit (before fixes C05-2, C06-1, C06-2) does NOT satisfy these: witnesses replayed
    by ./check C06 on the real code. *)
 Theorem incoming_ld_head_refuted :
